@@ -4,7 +4,7 @@
 From Coq Require Import List NArith.
 From Coq.Strings Require Import Byte.
 Import ListNotations.
-From SP Require Import Bytes BaseX Encodings Rand Params Msgpack Crypto Errors Packets Chunker Sign Verify Encrypt Decrypt Signcrypt Armor Streams BxStream KeyTrace.
+From SP Require Import Bytes BaseX Encodings Rand Params Msgpack Crypto Errors Packets Chunker Sign Verify Encrypt Decrypt Signcrypt Armor Streams BxStream ArmorStream KeyTrace.
 
 Definition m_byte_to_N := Byte.to_N.
 Definition m_bx_encode := BaseX.encode.
@@ -65,4 +65,5 @@ Definition m_sign_attached_events := KeyTrace.sign_attached_events.
 Definition m_sign_detached_events := KeyTrace.sign_detached_events.
 
 (* streaming base-X decoder, call by call *)
+Definition m_ad_trace (chk : option Z) (sizes : list nat) (s : source) : list bd_result := ad_trace chk sizes s.
 Definition m_bxd_trace (e : encoding) (sizes : list nat) (s : source) : list bd_result := bd_trace e sizes (bd_init s).
